@@ -71,6 +71,10 @@ func c06Gen(r *rand.Rand, tier string, idx int) any {
 		return c
 	}
 	c.Kind = "movement"
+	if r.Intn(8) == 0 {
+		c06GenRegisterCopies(r, &c)
+		return c
+	}
 	m := pick(r, c06Movements)
 	c.Cmd = m.name
 	c.Hist = []string{pick(r, stdHist), pick(r, stdHist), pick(r, stdHist)}
@@ -146,6 +150,46 @@ func c06Gen(r *rand.Rand, tier string, idx int) any {
 		}
 	}
 	return c
+}
+
+// c06GenRegisterCopies: several yanks in a row into named registers (lower case = replace,
+// upper case = append), from a buffer that is multi-line half of the time.
+func c06GenRegisterCopies(r *rand.Rand, c *c06Case) {
+	c.Mode, c.Keymap, c.Cmd = "vi", "vi-command", "vi-yank-whole-line"
+	c.Hist = []string{pick(r, stdHist), pick(r, stdHist), pick(r, []string{"ab\ncd", "first line\nsecond\nthird line here", "x\n\ny", "one two three", "世界\nwörld ok", "a\nbb\nccc\ndddd"})}
+	add := func(w, tag string) { c.Plan = append(c.Plan, sess.Step{W: w, Tag: tag}) }
+	add("\x1b", "esc")
+	for i := 0; i < 1+r.Intn(2); i++ {
+		add("k", "recall")
+	}
+	for i := 0; i < r.Intn(5); i++ {
+		add(pick(r, []string{"h", "l", "0", "$", "w", "b", "k", "k", "e"}), "walk")
+	}
+	regs := pick(r, [][]string{{"a", "A"}, {"a", "A", "b", "B"}, {"z", "Z", "1", "a"}})
+	n := 2 + r.Intn(3)
+	for i := 0; i < n; i++ {
+		tag := "copy"
+		if i == 0 {
+			tag = "probe"
+		}
+		add("\"", tag)
+		add(pick(r, regs), "register")
+		if r.Intn(3) == 0 {
+			add(fmt.Sprint(2+r.Intn(3)), "numarg")
+		}
+		if r.Intn(2) == 0 {
+			add(c06Probe, "copy")
+		} else {
+			add("y", "copy")
+			for _, k := range pick(r, []string{"w", "b", "e", "$", "0", "l", "h", "iw", "aw", "W", "E", "^", "y"}) {
+				add(string(k), "motion")
+			}
+		}
+		if r.Intn(3) == 0 {
+			add(pick(r, []string{"h", "l", "0", "$", "w", "b", "e"}), "walk") // no j/k: they leave the line for another history entry
+		}
+	}
+	c.Motion = "register-copies"
 }
 
 func c06Invariants(o *fw.Out, sn *sess.Snap, ctx string) {
@@ -231,7 +275,7 @@ func c06Run(env *fw.Env, raw json.RawMessage) fw.Outcome {
 		// buffer before the probe key vs after the command (and its argument / motion) completed
 		probeStep := -1
 		for i, st := range c.Plan {
-			if st.Tag == "probe" {
+			if st.Tag == "probe" && probeStep < 0 {
 				probeStep = i
 			}
 		}
